@@ -21,6 +21,7 @@ UNDEF = "zz_undef"
 class Entry:
     def __init__(self, id, target, verdict, rule, sites, apply, stage):
         self.id, self.target, self.verdict, self.rule, self.sites, self.apply, self.stage = id, target, verdict, rule, sites, apply, stage
+        self.exhaustive = False  # enumerate every site on the fixed small model in every run (rules stated name by name)
         self.same = False  # accept entries only: the edit does not change the meaning of the file, so the run must give the same results as the base
 
 
@@ -550,6 +551,21 @@ def _new_row(v, sheet, code, display):
         v.tab("compartments").append(code_name=code, display_name=display, is_source="n", is_sink="n", is_junction="n")
     elif sheet == "characteristics":
         v.tab("characteristics").append(code_name=code, display_name=display, components=_first_comp(v))
+    elif sheet == "interactions":
+        if "interactions" not in v.t:
+            ws = v.wb.create_sheet("Interactions")
+            ws.cell(row=1, column=1).value = "Code Name"
+            ws.cell(row=1, column=2).value = "Display Name"
+            v.ws["interactions"] = ws
+            v.t["interactions"] = Table(ws)
+        v.tab("interactions").append(code_name=code, display_name=display)
+    elif sheet == "population types":
+        if "population types" not in v.t:
+            ws = v.wb.create_sheet("Population Types")
+            _append_table(ws, [["Code Name", "Description"], ["default", "Default"]])
+            v.ws["population types"] = ws
+            v.t["population types"] = Table(ws)
+        v.tab("population types").append(code_name=code, description=display)
     else:
         raise KeyError(sheet)
 
@@ -605,7 +621,12 @@ def _dup_display_apply(v, site):
 
 reg("fw.duplicate_display_name", FW, "reject", "framework.py:1226-1232 _validate_names: duplicate display name", _dup_display_sites, _dup_display_apply)
 
-RESERVED = ["t", "dt", "flow", "all", "total", "max", "exp", "SRC_POP_AVG", "pi", "sdiv"]  # system.py:88-89 RESERVED_KEYWORDS (incl. the supported function names)
+# The harness' OWN list of reserved names (deliberately not read from atomica): every name that means something inside a parameter function -
+# the whitelisted functions and the constant pi (function_parser.py:78-83 'Only calls to functions in the dict below will be permitted'), the time
+# variables t and dt (framework.py:1030-1032 'special variables passed in by model.py') - plus the keywords of the flow / population syntax: 'flow'
+# ('par:flow'), 'all' and 'total' (population aggregates; docs/examples/databooks: 'All' is a reserved keyword). system.py:88-89 states the rule.
+RESERVED_FUNCTIONS = ["max", "min", "exp", "floor", "SRC_POP_AVG", "TGT_POP_AVG", "SRC_POP_SUM", "TGT_POP_SUM", "STITCH_AVG", "STITCH_SUM", "cos", "sin", "sqrt", "ln", "rand", "randn", "sdiv"]
+RESERVED = ["pi", "t", "dt", "flow", "all", "total"] + RESERVED_FUNCTIONS
 SYMBOLS = [":", ",", ";", "/", "+", "-", "*", "'", '"', " ", "@"]  # system.py:91 RESERVED_SYMBOLS
 
 
@@ -618,9 +639,31 @@ reg(
     FW,
     "reject",
     "framework.py:1218-1219 + system.py:88-89 a code name cannot be a reserved keyword",
-    lambda v: [[sh, k] for sh in _sheets_for_new_row(v) for k in range(len(RESERVED))],
+    lambda v: [[sh, k] for k in range(len(RESERVED)) for sh in _sheets_for_new_row(v) + ["interactions", "population types"]],
     lambda v, site: _new_row(v, site[0], RESERVED[site[1]], "ZZ reserved name"),
 )
+ENTRIES["fw.reserved_code_name"].exhaustive = True
+
+
+def _reserved_casc_apply(v, site):
+    what, k = site
+    names = _body_by_type(v)
+    first = sorted(names.items())[0][1][0]
+    if what == "cascade":
+        _append_table(_casc_sheet(v), [[RESERVED[k], "Constituents"], ["Stage one", first]])
+    else:
+        _append_table(_casc_sheet(v), [["zz cascade", "Constituents"], [RESERVED[k], first]])
+
+
+reg(
+    "fw.reserved_cascade_or_stage_name",
+    FW,
+    "reject",
+    "framework.py:1252-1254 a cascade name and 1261-1263 a cascade stage name cannot be a reserved keyword (system.py:88-89)",
+    lambda v: [[what, k] for k in range(len(RESERVED)) for what in ("cascade", "stage")] if _body_by_type(v) else [],
+    _reserved_casc_apply,
+)
+ENTRIES["fw.reserved_cascade_or_stage_name"].exhaustive = True
 reg(
     "fw.reserved_symbol_in_code_name",
     FW,
@@ -1884,6 +1927,26 @@ reg(
     lambda v: [[i, j] for i in _idx(v.pops, 2) for j in range(5)],
     _popname_apply,
 )
+
+
+POP_RESERVED = [n for n in RESERVED if n == n.lower()]  # data.py:873 compares the lower-cased population name
+
+
+def _reserved_pop_apply(v, site):
+    k, how = site
+    name = POP_RESERVED[k]
+    v.ws["Population Definitions"].cell(row=v.pops[0]["row"], column=1).value = [name, name.upper(), name.title()][how]
+
+
+reg(
+    "db.reserved_population_name",
+    DB,
+    "reject",
+    "data.py:873-874 'Population name ... is a reserved keyword' (case-insensitive; wrapped as InvalidDatabook 364-368); system.py:88-89; one-letter names also break 867-868",
+    lambda v: [[k, how] for k in range(len(POP_RESERVED)) for how in (0, 1, 2)] if v.pops else [],
+    _reserved_pop_apply,
+)
+ENTRIES["db.reserved_population_name"].exhaustive = True
 
 
 def _poptype_apply(v, site):
